@@ -26,6 +26,20 @@ evaluate); `kr0` is the state the compiled model reaches from `KState.init` with
 hypothesis for the one string computation of `define_step` that does not reduce:
 `Step.adjust_label("X", ".") = "X"`.
 -/
+namespace StepupModel.B.Build
+open StepupModel.K StepupModel.K.Resources StepupModel.B.JobLoop
+
+/-- The converse of `InFlightLink`: every job of `Scheduler.jobs` that was handed out to run its command (not
+a hash check) and whose task is in `running_tasks` has a RUNNING row. -/
+def FlightRows (s : Sys) : Prop :=
+  ∀ a ∈ s.jobs, a.2.2 = false → Job.step a.1 ∈ s.jl.running → ∃ n ∈ s.k.nodes, n.key = a.2.1 ∧ runs n = true
+
+/-- At most one job in flight per step. -/
+def OneJobPerStep (s : Sys) : Prop :=
+  ∀ a ∈ s.jobs, ∀ b ∈ s.jobs, Job.step a.1 ∈ s.jl.running → Job.step b.1 ∈ s.jl.running → a.2.1 = b.2.1 → a.1 = b.1
+
+end StepupModel.B.Build
+
 namespace StepupModel.B.Build.Recreate
 open StepupModel.K StepupModel.K.Resources StepupModel.B StepupModel.B.Build StepupModel.B.JobLoop
 
@@ -124,5 +138,135 @@ theorem cannot_recycle : kr0.canRecycle X declX' = false := by
 theorem new_guard : kr0.newStepGuard X declX' = .ok () := isOkUnit_spec (by decide +kernel)
 
 theorem create : ∃ chk, kr0.createStep cfgT X S declX' = .ok (kr1, chk) := stateOf_spec (by decide +kernel)
+
+theorem nd : normDecl declX' = declX' := by simp [normDecl, declX', np_two, np_nil]
+
+/-- The row of `X` in `kr0`: detached, RUNNING. -/
+def xRow : Node :=
+  { key := X, creator := none, detached := true, sstate := .running, checkSafe := true, checkAfter := true,
+    ready := true, checkReady := true, resources := [("token", 1)] }
+
+/-- **The request.**  `define S X(inp a, late)` on `kr0` is accepted, does not recycle (`can_recycle` is false:
+the input lists differ) and leaves `kr1`: the row of `X` is PENDING. -/
+theorem define_recreates (hl : stepLabel "X" "." = some "X") :
+    ∃ o, kr0.exec cfgT (.define S declX') = .ok (kr1, o) := by
+  obtain ⟨chk, hc⟩ := create
+  have hf : kr0.find? X = some xRow := by decide +kernel
+  have hnd := nd
+  unfold normDecl at hnd
+  refine ⟨StepupModel.Proto.hexList chk, ?_⟩
+  simp only [KState.exec]
+  unfold KState.defineStep
+  simp only [hnd, bind, Except.bind, guard hl, hf, cannot_recycle, new_guard, hc, Bool.false_eq_true, and_false,
+    if_false, pure, Except.pure]
+
+/-! ## The two events -/
+
+theorem step_e1 (hl : stepLabel "X" "." = some "X") : step r0 e1 = r1 := by
+  obtain ⟨o, ho⟩ := define_recreates hl
+  have ho' : r0.k.exec r0.cfg (.define S declX') = .ok (kr1, o) := ho
+  have hc : r0.jl.running.contains (.step 3) = true := by decide
+  show unpark (applyEv r0 (.rpc 3 (.define S declX'))) = r1
+  simp only [applyEv, hc, ho', wakes, if_true]
+  rfl
+
+theorem r0_kernelLink : KernelLink r0 := by
+  intro n hn hr
+  simp only [r0, kr0, List.mem_cons, List.mem_nil_iff, or_false] at hn
+  rcases hn with rfl | rfl | rfl | rfl | rfl
+  · cases hr
+  · exact ⟨(1, S, false), by decide, rfl, rfl⟩
+  · cases hr
+  · cases hr
+  · exact ⟨(2, X, false), by decide, rfl, rfl⟩
+
+theorem r0_inFlightLink : InFlightLink r0 := by
+  intro n hn hr
+  simp only [r0, kr0, List.mem_cons, List.mem_nil_iff, or_false] at hn
+  rcases hn with rfl | rfl | rfl | rfl | rfl
+  · cases hr
+  · exact ⟨(3, S, false), by decide, rfl, rfl, by decide⟩
+  · cases hr
+  · cases hr
+  · exact ⟨(2, X, false), by decide, rfl, rfl, by decide⟩
+
+theorem r0_flightRows : FlightRows r0 := by
+  intro a ha _ _
+  have hj : r0.jobs = [(2, X, false), (3, S, false)] := by decide +kernel
+  rw [hj] at ha
+  simp only [List.mem_cons, List.mem_nil_iff, or_false] at ha
+  rcases ha with rfl | rfl
+  · exact ⟨xRow, by decide +kernel, rfl, rfl⟩
+  · exact ⟨_, List.mem_cons_of_mem _ List.mem_cons_self, rfl, rfl⟩
+
+theorem r0_oneJobPerStep : OneJobPerStep r0 := by
+  intro a ha b hb _ _ hk
+  have hj : r0.jobs = [(2, X, false), (3, S, false)] := by decide +kernel
+  rw [hj] at ha hb
+  simp only [List.mem_cons, List.mem_nil_iff, or_false] at ha hb
+  rcases ha with rfl | rfl <;> rcases hb with rfl | rfl <;> first | rfl | (revert hk; decide)
+
+theorem e1_legal : e1.legal := trivial
+theorem e2_legal : e2.legal := trivial
+
+/-- The facts about `r1` and `step r1 e2` that the kernel evaluates. -/
+theorem r1_facts :
+    r1.jl.running = [.step 2, .step 3] ∧ r1.jobs = [(2, X, false), (3, S, false)] ∧
+    (r1.k.find? X).map (·.sstate) = some .pending ∧ (r1.k.nodes.filter fun n => runs n).map (·.key) = [S] ∧
+    used r1.k "token" = 0 ∧
+    (step r1 e2).jl.running = [.step 2, .step 3, .step 4] ∧
+    (step r1 e2).jobs = [(2, X, false), (3, S, false), (4, X, false)] ∧
+    (step r1 e2).jl.running.length ≤ (step r1 e2).jl.njob ∧
+    ((step r1 e2).k.nodes.filter fun n => runs n).map (·.key) = [S, X] ∧
+    used (step r1 e2).k "token" = 1 := by decide +kernel
+
+/-- **C12, known finding `running-step-recreated`, on the composed model** (kernel-checked; `hl`: the one string
+computation of `define_step` that the kernel cannot evaluate, `Step.adjust_label("X", ".") = "X"`).
+
+`r0` satisfies the link invariants in both directions (`KernelLink`, `InFlightLink`, `FlightRows`,
+`OneJobPerStep`): `X` is RUNNING and detached, job 2 (`X`) and job 3 (its creator `S`, executed again) are in
+flight.  Two LEGAL events follow, both accepted: `e1`, the request `define S X(inp a, late)` of job 3, and `e2`,
+a pass of the job loop.
+
+* After `e1` job 2 is still in `running_tasks`, but the row of its step is PENDING: `FlightRows` is false, and
+  no RUNNING row holds `token` although the command of job 2, which requires it, still runs.
+* After `e2` jobs 2 and 4 are in `running_tasks` and both are jobs of `X`: `OneJobPerStep` is false; two
+  commands that require the single unit of `token` run, and the RUNNING rows account for one unit.
+
+`InFlightLink` (RUNNING row => job in flight) and the job limit are not contradicted: they hold in all three
+states. -/
+theorem two_jobs_of_one_step (hl : stepLabel "X" "." = some "X") :
+    (KernelLink r0 ∧ InFlightLink r0 ∧ FlightRows r0 ∧ OneJobPerStep r0) ∧
+    (r0.k.find? X = some xRow ∧ xRow.sstate = .running ∧ xRow.detached = true ∧
+      r0.jobs = [(2, X, false), (3, S, false)] ∧ r0.jl.running = [.step 2, .step 3]) ∧
+    (e1.legal ∧ e2.legal ∧ FinishOK r0 e1 ∧ FinishOK (step r0 e1) e2) ∧
+    -- after `define`: a RUN job in flight whose row is not RUNNING
+    ((step r0 e1).jobs = [(2, X, false), (3, S, false)] ∧ (step r0 e1).jl.running = [.step 2, .step 3] ∧
+      ((step r0 e1).k.find? X).map (·.sstate) = some .pending ∧ used (step r0 e1).k "token" = 0 ∧
+      InFlightLink (step r0 e1) ∧ ¬ FlightRows (step r0 e1)) ∧
+    -- after the next pass: two jobs of one step in flight
+    ((step (step r0 e1) e2).jobs = [(2, X, false), (3, S, false), (4, X, false)] ∧
+      (step (step r0 e1) e2).jl.running = [.step 2, .step 3, .step 4] ∧
+      (step (step r0 e1) e2).jl.running.length ≤ (step (step r0 e1) e2).jl.njob ∧
+      used (step (step r0 e1) e2).k "token" = 1 ∧
+      InFlightLink (step (step r0 e1) e2) ∧ ¬ OneJobPerStep (step (step r0 e1) e2)) := by
+  have h1 := step_e1 hl
+  obtain ⟨f1, f2, f3, f4, f5, f6, f7, f8, -, f10⟩ := r1_facts
+  have l1 : InFlightLink (step r0 e1) := step_inFlight r0 e1 e1_legal trivial r0_inFlightLink
+  have l2 : InFlightLink (step (step r0 e1) e2) := step_inFlight _ e2 e2_legal trivial l1
+  rw [h1] at l1 l2 ⊢
+  refine ⟨⟨r0_kernelLink, r0_inFlightLink, r0_flightRows, r0_oneJobPerStep⟩,
+    ⟨by decide +kernel, rfl, rfl, by decide +kernel, rfl⟩, ⟨e1_legal, e2_legal, trivial, trivial⟩,
+    ⟨f2, f1, f3, f5, l1, ?_⟩, ⟨f7, f6, f8, f10, l2, ?_⟩⟩
+  · intro h
+    obtain ⟨n, hn, hk, hr⟩ := h (2, X, false) (by rw [f2]; exact List.mem_cons_self) rfl (by rw [f1]; exact List.mem_cons_self)
+    have hmem : n.key ∈ (r1.k.nodes.filter fun n => runs n).map (·.key) :=
+      List.mem_map.2 ⟨n, List.mem_filter.2 ⟨hn, hr⟩, rfl⟩
+    rw [f4, hk] at hmem
+    revert hmem; decide
+  · intro h
+    have := h (2, X, false) (by rw [f7]; decide) (4, X, false) (by rw [f7]; decide) (by rw [f6]; decide)
+      (by rw [f6]; decide) rfl
+    revert this; decide
 
 end StepupModel.B.Build.Recreate
